@@ -108,9 +108,9 @@ class ScalarFormatter(object):
         """
         self._sigma = sigma
         self._n_significant_digits = n_significant_digits
-        _sig = int(-np.floor(np.log10(self._sigma))) + self._n_significant_digits - 1
-        # inner rounding needed for errors like 0.9999999 -> 1.0 (shift in decimal place)
-        self._sig = int(-np.floor(np.log10(np.around(self._sigma, _sig)))) + self._n_significant_digits - 1
+        # round the uncertainty the way it is displayed ("%.{n}g"): needed for errors like 0.9999999 -> 1.0 (shift in decimal place)
+        _displayed_sigma = float("%.{}e".format(self._n_significant_digits - 1) % abs(self._sigma))
+        self._sig = int(-np.floor(np.log10(_displayed_sigma))) + self._n_significant_digits - 1
 
     def __call__(self, x):
         """Format the input to the precision given by the uncertainty.
